@@ -95,8 +95,8 @@ impl Prop for Repeat {
     }
     fn cases(tier: Tier) -> u32 {
         match tier {
-            Tier::Quick => 12_000,
-            Tier::Thorough => 1_500_000,
+            Tier::Quick => 120_000,
+            Tier::Thorough => 4_800_000,
         }
     }
     fn floors() -> Vec<(&'static str, u32)> {
